@@ -77,7 +77,8 @@ def lindblad(
     # to_vec() counts site 0 as the least significant index, the operators below are embedded with site 0 as
     # the leftmost Kronecker factor: bring the state vector to the same convention
     psi = psi.reshape([2] * num_sites).transpose(tuple(reversed(range(num_sites)))).reshape(-1)
-    rho_initial = np.outer(psi, psi.conj())
+    # complex even for a real-valued state: solve_ivp integrates in the dtype of its initial value
+    rho_initial = np.outer(psi, psi.conj()).astype(np.complex128)
 
     # 2. Convert Hamiltonian MPO to sparse matrix
     h_mat = hamiltonian.to_sparse_matrix()
